@@ -287,7 +287,18 @@ pub fn props(r: &mut Rng, ctx: u8, big: bool) -> Props {
 fn fix_payload_utf8(r: &mut Rng, props: &Props, payload: Vec<u8>) -> Vec<u8> {
     if props.iter().any(|(i, v)| *i == 0x01 && *v == PV::Byte(1)) && !utf8_ok(&payload) {
         let n = payload.len();
-        text_exact(r, n)
+        let mut t = text_exact(r, n);
+        if n > 0 && r.chance(1, 3) {
+            // U+0000 is forbidden in MQTT *strings* only: a payload flagged as UTF-8 may contain it
+            // (NUL-terminated text from C clients)
+            for _ in 0..r.range(1, 3) {
+                let i = r.below(n as u64) as usize;
+                if t[i].is_ascii() {
+                    t[i] = 0;
+                }
+            }
+        }
+        t
     } else {
         payload
     }
